@@ -58,9 +58,9 @@ Proof.
   unfold step_thread. intros H IC IP.
   destruct (nth_error (threads st) t) as [th|] eqn:Hth; [|discriminate].
   pose proof (ic_thr st IC t th Hth) as Tt. unfold thread_ok in Tt.
-  destruct (tpc th) as [| i | i | g s v | r] eqn:Hpc; try discriminate.
+  destruct (tpc th) as [rt | i | i | g s v | r] eqn:Hpc; try discriminate.
   - destruct (nth_error (caches st) (tcache th)) as [ca|]; [|discriminate].
-    destruct (creleased ca); [discriminate|].
+    destruct (creleased ca); [discriminate|]. rewrite blind_retry_repaired in H.
     destruct (find_entry (tcache th) (tkey th) (entries st)) as [i|] eqn:Hf.
     + destruct (nth_error (entries st) i) as [en|]; [|discriminate]. unfold move_gen in H.
       destruct (Nat.eqb (egen en) (ccur ca)); inversion H; subst st'; simpl; auto.
